@@ -180,6 +180,10 @@ func (p *Program) Explore() (*Result, error) {
 	for round := 1; ; round++ {
 		p.cellMu.Lock()
 		p.writtenGrew = false
+		p.writtenFrozen = make(map[string]bool, len(p.written))
+		for k := range p.written {
+			p.writtenFrozen[k] = true
+		}
 		p.cellMu.Unlock()
 		res, err := p.exploreOnce(entry)
 		if err != nil {
@@ -190,9 +194,11 @@ func (p *Program) Explore() (*Result, error) {
 		p.cellMu.RLock()
 		grew := p.writtenGrew
 		p.cellMu.RUnlock()
-		if !grew || len(res.Violations) > 0 || round >= 6 {
-			if grew && len(res.Violations) == 0 {
-				total.BoundHits["written-cell fixpoint not reached in 6 rounds"]++
+		// only a round during which the set of written shared cells did not grow is conclusive: in earlier
+		// rounds some racy reads were not yet preemption points
+		if !grew || round >= 8 {
+			if grew {
+				total.BoundHits["written-cell fixpoint not reached in 8 rounds"]++
 			}
 			break
 		}
@@ -340,6 +346,7 @@ func (p *Program) freshState(ctx *TermCtx, sv *Solver) *State {
 	st.zero8 = ctx.Const(8, 0)
 	st.zero64 = ctx.Const(64, 0)
 	st.preemptLeft = p.Cfg.Preempt
+	st.devLeft = p.Cfg.Deviations
 	st.fs = newFS()
 	return st
 }
